@@ -190,6 +190,9 @@ class OptimizerGeneric:
                                        bounds=bounds,
                                        options=options,
                                        tol=tol)
+        # leave the optic in the state of the returned solution (the last point
+        # evaluated by the solver is generally not the solution it returns)
+        self._fun(result.x)
         return result
 
     def undo(self):
@@ -282,6 +285,9 @@ class LeastSquares(OptimizerGeneric):
                                             max_nfev=maxiter,
                                             verbose=verbose,
                                             ftol=tol)
+        # leave the optic in the state of the returned solution (the last point
+        # evaluated by the solver is generally not the solution it returns)
+        self._fun(result.x)
         return result
 
 
@@ -324,6 +330,9 @@ class DualAnnealing(OptimizerGeneric):
                                              bounds=bounds,
                                              maxiter=maxiter,
                                              x0=x0)
+        # leave the optic in the state of the returned solution (the last point
+        # evaluated by the solver is generally not the solution it returns)
+        self._fun(result.x)
         return result
 
 
@@ -386,4 +395,7 @@ class DifferentialEvolution(OptimizerGeneric):
                                                      disp=disp,
                                                      updating=updating,
                                                      workers=workers)
+        # leave the optic in the state of the returned solution (the last point
+        # evaluated by the solver is generally not the solution it returns)
+        self._fun(result.x)
         return result
